@@ -519,6 +519,11 @@ def value_shape_cases(mk_case):
       yield mk_case([{'op': 'select', 'in': vs_in_spec(nin, 'many'), 'out': {'one': SELF}}], recs, tag='value-shape')
       yield mk_case([{'op': 'apply', 'fn': None, 'in': vs_in_spec(nin, 'many'), 'out': {'one': SELF}}], recs, tag='value-shape')
       yield mk_case([{'op': 'apply', 'fn': f('tup'), 'in': vs_in_spec(nin, 'many'), 'out': {'one': SELF}}], recs, tag='value-shape')
+      # a function RETURNING a value of this shape into SELF (the SELF re-wrap of `_normalize_outputs`)
+      yield mk_case([{'op': 'apply', 'fn': f('const', c=vs_value(shape, 7)), 'in': vs_in_spec(nin, 'many'), 'out': {'one': SELF}}],
+                    recs, tag='value-shape')
+      yield mk_case([{'op': 'apply', 'fn': f('const', c=vs_value(shape, 7)), 'in': vs_in_spec(nin, 'many'), 'out': {'many': [SELF]}}],
+                    recs, tag='value-shape')
       # filter / sink see the selected values as they are
       yield mk_case([{'op': 'sink', 'fn': f('tup'), 'in': vs_in_spec(nin, 'many'), 'is_sink': True}], recs, tag='value-shape')
       yield mk_case([{'op': 'filter', 'fn': f('const', c=1), 'in': vs_in_spec(nin, 'many')}], recs, tag='value-shape')
@@ -533,6 +538,8 @@ def value_shape_cases(mk_case):
       yield mk_case([{'op': 'apply', 'fn': None, 'in': {'one': SELF}, 'out': outs}], whole, tag='value-shape')
       yield mk_case([{'op': 'apply', 'fn': f('ident'), 'in': {'one': SELF}, 'out': outs}], whole, tag='value-shape')
     yield mk_case([{'op': 'apply', 'fn': None, 'in': {'one': SELF}, 'out': {'one': SELF}}], whole, tag='value-shape')
+    yield mk_case([{'op': 'apply', 'fn': f('ident'), 'in': {'one': SELF}, 'out': {'one': SELF}}], whole, tag='value-shape')
+    yield mk_case([{'op': 'apply', 'fn': f('wrap1'), 'in': {'one': SELF}, 'out': {'one': SELF}}], whole, tag='value-shape')
     yield mk_case([{'op': 'select', 'in': {'one': SELF}}], whole, tag='value-shape')
     yield mk_case([{'op': 'select', 'in': {'many': [SELF, SELF]}, 'out': {'many': [N('x'), N('y')]}}], whole, tag='value-shape')
     yield mk_case([{'op': 'sink', 'fn': f('ident'), 'in': {'one': SELF}, 'is_sink': True}], whole, tag='value-shape')
@@ -570,6 +577,51 @@ def value_shape_cases(mk_case):
         yield mk_case([{'op': 'assign', 'fn': None, 'in': ins, 'keys': same, 'batch': rows}], recs, tag='value-shape')
         yield mk_case([{'op': 'assign', 'fn': f('tup'), 'in': {'many': ins.get('many', [ins.get('one')])}, 'keys': same, 'batch': rows}],
                       recs, tag='value-shape')
+
+
+def gen_value_shape_chain(rng):
+  """-> (specs, items): a random chain of 1..4 operators that only ROUTE (select, assign / apply without fn, apply of
+  `tup`, a trailing batch) over dict records whose fields have INDEPENDENTLY drawn value shapes (mixed per record)."""
+  shapes = {nm: rng.choice(VS_SHAPES) for nm in ('a', 'b', 'c', 'd')}
+  nrec = rng.choice([1, 2, 3, 4])
+  items = [wd(**{nm: vs_value(sh, 4 * i + j) for j, (nm, sh) in enumerate(shapes.items())}, k=i) for i in range(nrec)]
+  have = list(shapes) + ['k']
+  fresh = [x for x in FRESH]
+  specs = []
+  for _ in range(rng.randrange(1, 5)):
+    nin = rng.choice([1, 1, 2, 2, 3])
+    if len(have) < nin:
+      break
+    src = rng.sample(have, nin)
+    ins = {'one': N(src[0])} if nin == 1 and rng.random() < 0.6 else {'many': [N(x) for x in src]}
+    r = rng.random()
+    names = [x for x in fresh if x not in have]
+    if r < 0.35:                                    # assign without fn: copies under new names (or one name for all)
+      nout = 1 if rng.random() < 0.3 else nin
+      if len(names) < nout:
+        break
+      outs = names[:nout]
+      specs.append({'op': 'assign', 'fn': None, 'in': ins, 'keys': {'one': N(outs[0])} if nout == 1 and rng.random() < 0.6 else {'many': [N(x) for x in outs]}})
+      have = have + outs
+    elif r < 0.7:                                   # select: default keys, renamed, or one key for all
+      q = rng.random()
+      if q < 0.4:
+        specs.append({'op': 'select', 'in': ins})
+        have = list(dict.fromkeys(src))
+      else:
+        nout = 1 if q < 0.6 else nin
+        outs = (names + FRESH)[:nout]
+        specs.append({'op': 'select', 'in': ins, 'out': {'one': N(outs[0])} if nout == 1 and rng.random() < 0.6 else {'many': [N(x) for x in outs]}})
+        have = outs
+    else:                                           # apply: without fn / tup
+      nout = 1 if rng.random() < 0.3 else nin
+      outs = (names + FRESH)[:nout]
+      specs.append({'op': 'apply', 'fn': None if rng.random() < 0.6 else {'f': 'tup'}, 'in': {'many': [N(x) for x in src]} if 'one' not in ins or rng.random() < 0.5 else ins,
+                    'out': {'one': N(outs[0])} if nout == 1 and rng.random() < 0.6 else {'many': [N(x) for x in outs]}})
+      have = outs
+  if specs and specs[-1]['op'] in ('select', 'apply') and rng.random() < 0.25:
+    specs.append({'op': 'batch', 'n': rng.choice([1, 2])})
+  return specs, items
 
 
 def vs_arms(case):
@@ -610,7 +662,15 @@ def vs_arms(case):
   else:
     nout, fn = 0, '+fn'
   b = '+batch' if sp.get('batch') or sp.get('fn_batch') else ''
-  return [f'{op}{fn}{b}:in{min(len(in_keys), 3)}:out{min(nout, 3)}:{classify_value(v)}']
+  arms = [f'{op}{fn}{b}:in{min(len(in_keys), 3)}:out{min(nout, 3)}:{classify_value(v)}']
+  outs = L._norm_out(sp.get('out') or sp.get('keys') or {'many': []})                           # pylint: disable=protected-access
+  if len(outs) == 1 and 'self' in outs[0]:
+    arms.append(f'{op}{fn}{b}:in{min(len(in_keys), 3)}:outSELF:{classify_value(v)}')
+    if (sp.get('fn') or {}).get('f') == 'const':
+      arms.append(f"{op}+fn{b}:outSELF:returns:{classify_value(sp['fn']['c'])}")
+  elif (sp.get('fn') or {}).get('f') == 'const':
+    arms.append(f"{op}+fn{b}:out{min(nout, 3)}:returns:{classify_value(sp['fn']['c'])}")
+  return arms
 
 
 def vs_required():
@@ -623,6 +683,13 @@ def vs_required():
           need.append(f'{kind}:in{nin}:out{nout}:{lab}')
       for kind in ('filter+fn', 'sink+fn'):
         need.append(f'{kind}:in{nin}:out0:{lab}')
+      for kind in ('select-fn', 'apply-fn', 'apply+fn'):
+        need.append(f'{kind}:in{nin}:outSELF:{lab}')
+    # a function RETURNING a value of that shape, with 1 / 2 / 3 output keys and with SELF
+    for out in ('out1', 'out2', 'out3', 'outSELF'):
+      need.append(f'apply+fn:{out}:returns:{lab}')
+    for out in ('out1', 'out2', 'out3'):
+      need.append(f'assign+fn:{out}:returns:{lab}')
     need.append(f'batch:in1:out1:{lab}')
   for lab in VS_COLUMN_LABELS + ['none', 'int']:
     for nin in (1, 2, 3):
